@@ -6,6 +6,7 @@ package main
 // every logger in the tree is compared with the model after every step.
 
 import (
+	"os"
 	"encoding/json"
 	"fmt"
 	"io"
@@ -983,6 +984,16 @@ func init() {
 
 func c10run(c *Ctx) {
 	c.Flag("exhaustive", true)
+	// "... the package's current default level, which is Warn in a production process until SetLevel changes it":
+	// the worker is a production process (not under go test, no debugger, DEBUG unset or - in the environment pass - DEBUG=0)
+	if c.Shard == 0 && !slog.VerifInTesting() {
+		resetGlobals()
+		c.Count("default_level_in_production_checked", 1)
+		if got, fresh := slog.GetLevel(), slog.New().Level(); got != slog.WarnLevel || fresh != slog.WarnLevel {
+			c.Violate(mkViolation("C10|default-level-in-production|pass="+os.Getenv("VERIF_PASS"), "default-level-in-production",
+				fmt.Sprintf("a production process (environment pass %q) before any SetLevel: the package default level is %s and a logger created with the package-level New starts at %s, the statement says Warn", os.Getenv("VERIF_PASS"), levelName(got), levelName(fresh)), c10case{Root: 0}))
+		}
+	}
 	// exploration passes: alphabet level per depth
 	passes := [][]int{{0, 0, 1}} // quick: full alphabet to depth 2, reduced at depth 3
 	if c.Thorough() {
@@ -995,6 +1006,11 @@ func c10run(c *Ctx) {
 	seen := map[string]bool{}
 	n := 0
 	passes = append(passes, []int{4, 4, 4}) // the shared-Attrs root with the attribute operations only
+	if os.Getenv("VERIF_PASS") == "debug0" {
+		// the environment pass: the process was started with DEBUG=0 (a production process all the same): full alphabet to depth 2
+		passes = [][]int{{0, 0}}
+		c.Info("depth_in_the_pass_with_DEBUG_0", 2)
+	}
 	for pi, levels := range passes {
 		seenPass := map[string]bool{}
 		var frontier []node
